@@ -66,6 +66,9 @@ def nontrivial(probes):
     return probes.get("steps_checked", 0) > 0
 
 
+_KS = {}
+
+
 def _one_execution(ds, sc, s, elems, idx, cost, W, identical, ctx, case):
     events = []
 
@@ -76,7 +79,7 @@ def _one_execution(ds, sc, s, elems, idx, cost, W, identical, ctx, case):
     sched.draw_observers.append(obs)
     sched.set_current(s)
     try:
-        ok, cons = call(KwikSortRandom().compute_consensus_rankings, ds, sc, True)
+        ok, cons = call(_KS["alg"].compute_consensus_rankings, ds, sc, True)
     finally:
         sched.set_current(None)
         sched.draw_observers.remove(obs)
@@ -153,6 +156,7 @@ def _one_execution(ds, sc, s, elems, idx, cost, W, identical, ctx, case):
 
 
 def run_case(case, ctx):
+    _KS["alg"] = KwikSortRandom()  # one instance serves every execution of the run (and survives the in-place edit)
     mr = model.normalise(case["dataset"]["rankings"])
     elems = model.universe(mr)
     idx = {e: i for i, e in enumerate(elems)}
